@@ -1,0 +1,13 @@
+//go:build !verif
+// +build !verif
+
+package verifhook
+
+// Point does nothing (build tag 'verif' is off).
+func Point(name string) {}
+
+// Set does nothing (build tag 'verif' is off).
+func Set(f func(name string)) {}
+
+// Enabled reports whether the hooks are compiled in.
+const Enabled = false
